@@ -1260,3 +1260,13 @@ package main
 //@   may_panic when true
 //@   unclaimed addGarbleToHash/requires because the shared cache is loaded by the caller before any tool is wrapped
 //@ end
+
+// ---- C15/C13: fields are tied to the struct of their origin (uninstantiated) type ----
+
+//@ func recordFieldToStruct
+//@   property C15 C13
+//@   trusted recursion over go/types with a visited set; only the coverage of its type switch is an obligation here
+//@   case_calls *types.Alias: !Rhs, !recordFieldToStruct
+//@   case_calls *types.Named: !Origin, !Underlying, !recordFieldToStruct
+//@   case_calls *types.Struct: !Fields, !Origin, !Embedded, Type, recordFieldToStruct, panic, Sprintf
+//@ end
